@@ -646,6 +646,30 @@ impl Interp {
                 let cv = self.eval(c)?;
                 let iv = self.eval(i)?;
                 let cv2 = cv.clone();
+                if let (V::List(l), V::Range(a, b, inc)) = (&cv, &iv) {
+                    // slice assignment fills the (clamped) range with the value
+                    let mut g = l.lock().unwrap();
+                    let len = g.len() as i64;
+                    if a.map(|x| x < 0).unwrap_or(false) || b.map(|x| x < 0).unwrap_or(false) {
+                        return unjudged("negative slice bound");
+                    }
+                    let start = a.unwrap_or(0);
+                    let end = match b {
+                        Some(e) => if *inc { e.saturating_add(1) } else { *e },
+                        None => len,
+                    };
+                    if start > len || end > len || end < start {
+                        return unjudged("slice assignment beyond the list or with reversed bounds");
+                    }
+                    for i in start..end {
+                        g[i as usize] = v.clone();
+                    }
+                    drop(g);
+                    if nesting_depth(&cv2, 0) > 40 {
+                        return unjudged("deeply nested or cyclic container");
+                    }
+                    return Ok(());
+                }
                 match cv {
                     V::List(l) => {
                         let idx = Self::as_index(&iv)?;
@@ -740,6 +764,10 @@ impl Interp {
                         i += 1;
                         items[i - 1].clone()
                     };
+                    if kind == "iter" {
+                        out.push(item);
+                        continue;
+                    }
                     let r = self.call(f, vec![item.clone()], None)?;
                     match kind.as_str() {
                         "each" => out.push(r),
@@ -1219,10 +1247,32 @@ impl Interp {
                 self.access(&cv, k)
             }
             E::Call(callee, args) => {
+                // koto.deep_copy(x) / koto.copy(x)
+                if let E::Dot(c, k) = &**callee {
+                    if matches!(&**c, E::Id(n) if n == "koto") && args.len() == 1 && !args[0].1 {
+                        let v = self.eval(&args[0].0)?;
+                        match k.as_str() {
+                            "deep_copy" => return deep_copy(&v),
+                            "copy" => return self.call_builtin("copy", vec![v]),
+                            _ => return unjudged("koto module function"),
+                        }
+                    }
+                }
                 // instance call: m.f(args) passes m as self
                 let (f, self_val) = match &**callee {
                     E::Dot(c, k) => {
                         let cv = self.eval(c)?;
+                        let is_data_key = matches!(&cv, V::Map(m) if m.lock().unwrap().entries.iter().any(|(k2, _)| matches!(k2, V::Str(s) if &**s == k.as_str())));
+                        if !is_data_key && matches!(cv, V::List(_) | V::Tuple(_) | V::Map(_)) && container_method(&cv, k) {
+                            let mut argv = vec![];
+                            for (a, packed) in args {
+                                if *packed {
+                                    return unjudged("packed arguments to a core-library method");
+                                }
+                                argv.push(self.eval(a)?);
+                            }
+                            return self.call_container_method(&cv, k, argv);
+                        }
                         if !matches!(cv, V::Map(_)) && args.is_empty() {
                             match k.as_str() {
                                 "to_tuple" => return Ok(vtuple(self.iterate(&cv)?)),
@@ -1702,29 +1752,513 @@ impl Interp {
 }
 
 /// "Descending ranges are considered to be empty" (core library docs)
-/// nesting depth of a value, cut off at 64 (cyclic containers reach the cut-off)
-pub fn nesting_depth(v: &V, d: usize) -> usize {
-    if d > 64 {
-        return d;
+pub fn deep_copy(v: &V) -> R {
+    if nesting_depth(v, 0) > 40 {
+        return Err(Ctl::Unjudged("deep copy of a cyclic container".into()));
     }
-    match v {
+    Ok(match v {
         V::List(l) => {
-            let items = match l.try_lock() {
-                Ok(g) => g.clone(),
-                Err(_) => return 65,
-            };
-            items.iter().map(|x| nesting_depth(x, d + 1)).max().unwrap_or(d)
+            let items = l.lock().unwrap().clone();
+            let mut out = vec![];
+            for x in &items {
+                out.push(deep_copy(x)?);
+            }
+            vlist(out)
         }
-        V::Tuple(t) => t.iter().map(|x| nesting_depth(x, d + 1)).max().unwrap_or(d),
+        V::Tuple(t) => {
+            let mut out = vec![];
+            for x in t.iter() {
+                out.push(deep_copy(x)?);
+            }
+            vtuple(out)
+        }
         V::Map(m) => {
-            let items = match m.try_lock() {
-                Ok(g) => g.entries.clone(),
-                Err(_) => return 65,
-            };
-            items.iter().map(|(_, x)| nesting_depth(x, d + 1)).max().unwrap_or(d)
+            let d = m.lock().unwrap().clone();
+            let mut e = vec![];
+            for (k, x) in &d.entries {
+                e.push((k.clone(), deep_copy(x)?));
+            }
+            V::Map(Arc::new(Mutex::new(MapData { entries: e, type_name: d.type_name.clone(), meta: d.meta.clone() })))
         }
-        _ => d,
+        V::Gen(_) | V::Adapt(_) => return Err(Ctl::Unjudged("deep copy of an iterator".into())),
+        other => other.clone(),
+    })
+}
+
+const LIST_METHODS: [&str; 21] = ["push", "pop", "insert", "remove", "clear", "extend", "fill", "resize", "retain", "reverse", "sort", "swap", "transform", "first", "last", "get", "contains", "is_empty", "to_tuple", "to_list", "size"];
+const MAP_METHODS: [&str; 14] = ["insert", "remove", "clear", "extend", "sort", "get", "keys", "values", "get_index", "contains_key", "is_empty", "update", "size", "to_tuple"];
+const TUPLE_METHODS: [&str; 8] = ["first", "last", "get", "contains", "to_list", "to_tuple", "is_empty", "size"];
+
+pub fn container_method(recv: &V, name: &str) -> bool {
+    match recv {
+        V::List(_) => LIST_METHODS.contains(&name),
+        V::Map(_) => MAP_METHODS.contains(&name),
+        V::Tuple(_) => TUPLE_METHODS.contains(&name),
+        _ => false,
     }
+}
+
+fn key_ok(k: &V) -> bool {
+    match k {
+        V::Str(_) | V::Int(_) | V::Bool(_) | V::Null => true,
+        V::Float(_) => false, // equal-valued int/float keys: known finding C14-key-hash
+        V::Tuple(t) => t.iter().all(key_ok),
+        V::Range(..) => false,
+        _ => false,
+    }
+}
+
+fn cmp_for_sort(a: &V, b: &V) -> Result<std::cmp::Ordering, Ctl> {
+    // sorting incomparable elements raises an error part-way: the resulting order is not defined
+    let same_kind = matches!((a, b), (V::Int(_) | V::Float(_), V::Int(_) | V::Float(_)) | (V::Str(_), V::Str(_)));
+    if !same_kind {
+        return Err(Ctl::Unjudged("sorting elements that have no common order".into()));
+    }
+    if compare(Op::Lt, a, b)? {
+        Ok(std::cmp::Ordering::Less)
+    } else if compare(Op::Gt, a, b)? {
+        Ok(std::cmp::Ordering::Greater)
+    } else {
+        Ok(std::cmp::Ordering::Equal)
+    }
+}
+
+fn stable_sort(items: &mut Vec<V>) -> Result<(), Ctl> {
+    // insertion sort: stable, and every comparison goes through the model's `compare`
+    for i in 1..items.len() {
+        let mut j = i;
+        while j > 0 && cmp_for_sort(&items[j - 1], &items[j])? == std::cmp::Ordering::Greater {
+            items.swap(j - 1, j);
+            j -= 1;
+        }
+    }
+    Ok(())
+}
+
+impl Interp {
+    pub fn call_container_method(&mut self, recv: &V, name: &str, args: Vec<V>) -> R {
+        let arity = |n: usize| -> Result<(), Ctl> {
+            if args.len() == n { Ok(()) } else { Err(Ctl::Err(None, format!("unexpected arguments for {name}"))) }
+        };
+        let uint = |v: &V| -> Result<usize, Ctl> {
+            match v {
+                V::Int(n) if *n >= 0 => Ok(*n as usize),
+                V::Int(_) => Err(Ctl::Err(None, "negative index".into())),
+                V::Float(_) => Err(Ctl::Unjudged("float index argument".into())),
+                _ => Err(Ctl::Err(None, "expected a number".into())),
+            }
+        };
+        match recv {
+            V::List(l) => {
+                match name {
+                    "push" => {
+                        arity(1)?;
+                        l.lock().unwrap().push(args[0].clone());
+                        if nesting_depth(recv, 0) > 40 {
+                            return unjudged("cyclic container");
+                        }
+                        Ok(recv.clone())
+                    }
+                    "pop" => {
+                        arity(0)?;
+                        Ok(l.lock().unwrap().pop().unwrap_or(V::Null))
+                    }
+                    "insert" => {
+                        arity(2)?;
+                        let i = uint(&args[0])?;
+                        let mut g = l.lock().unwrap();
+                        if i > g.len() {
+                            return err("index out of bounds");
+                        }
+                        g.insert(i, args[1].clone());
+                        drop(g);
+                        if nesting_depth(recv, 0) > 40 {
+                            return unjudged("cyclic container");
+                        }
+                        Ok(recv.clone())
+                    }
+                    "remove" => {
+                        arity(1)?;
+                        let i = uint(&args[0])?;
+                        let mut g = l.lock().unwrap();
+                        if i >= g.len() {
+                            return err("index out of bounds");
+                        }
+                        Ok(g.remove(i))
+                    }
+                    "clear" => {
+                        arity(0)?;
+                        l.lock().unwrap().clear();
+                        Ok(recv.clone())
+                    }
+                    "extend" => {
+                        arity(1)?;
+                        if let V::List(o) = &args[0] {
+                            if Arc::ptr_eq(o, l) {
+                                return unjudged("l.extend l (known finding C06-extend-self)");
+                            }
+                        }
+                        let items = self.iterate(&args[0])?;
+                        l.lock().unwrap().extend(items);
+                        if nesting_depth(recv, 0) > 40 {
+                            return unjudged("cyclic container");
+                        }
+                        Ok(recv.clone())
+                    }
+                    "fill" => {
+                        arity(1)?;
+                        for x in l.lock().unwrap().iter_mut() {
+                            *x = args[0].clone();
+                        }
+                        if nesting_depth(recv, 0) > 40 {
+                            return unjudged("cyclic container");
+                        }
+                        Ok(recv.clone())
+                    }
+                    "resize" => {
+                        if args.is_empty() || args.len() > 2 {
+                            return err("unexpected arguments for resize");
+                        }
+                        let n = uint(&args[0])?;
+                        if n > 10_000 {
+                            return unjudged("huge resize");
+                        }
+                        let fill = args.get(1).cloned().unwrap_or(V::Null);
+                        l.lock().unwrap().resize(n, fill);
+                        if nesting_depth(recv, 0) > 40 {
+                            return unjudged("cyclic container");
+                        }
+                        Ok(recv.clone())
+                    }
+                    "retain" => {
+                        arity(1)?;
+                        let items = l.lock().unwrap().clone();
+                        let mut kept = vec![];
+                        for x in items {
+                            let keep = if matches!(args[0], V::Fn(_) | V::Builtin(_)) {
+                                match self.call(&args[0], vec![x.clone()], None)? {
+                                    V::Bool(b) => b,
+                                    other => return err(format!("expected Bool from the retain predicate, found {}", other.type_name())),
+                                }
+                            } else {
+                                values_equal(&x, &args[0])?
+                            };
+                            if keep {
+                                kept.push(x);
+                            }
+                        }
+                        *l.lock().unwrap() = kept;
+                        Ok(recv.clone())
+                    }
+                    "reverse" => {
+                        arity(0)?;
+                        l.lock().unwrap().reverse();
+                        Ok(recv.clone())
+                    }
+                    "sort" => {
+                        if !args.is_empty() {
+                            return unjudged("sort with a key function (judged by the sorting laws)");
+                        }
+                        let mut items = l.lock().unwrap().clone();
+                        stable_sort(&mut items)?;
+                        *l.lock().unwrap() = items;
+                        Ok(recv.clone())
+                    }
+                    "swap" => {
+                        arity(1)?;
+                        match &args[0] {
+                            V::List(o) => {
+                                if Arc::ptr_eq(o, l) {
+                                    return unjudged("swap with itself");
+                                }
+                                let a = l.lock().unwrap().clone();
+                                let b = o.lock().unwrap().clone();
+                                *l.lock().unwrap() = b;
+                                *o.lock().unwrap() = a;
+                                if nesting_depth(recv, 0) > 40 || nesting_depth(&args[0], 0) > 40 {
+                                    return unjudged("cyclic container");
+                                }
+                                Ok(V::Null)
+                            }
+                            _ => err("expected a list"),
+                        }
+                    }
+                    "transform" => {
+                        arity(1)?;
+                        let items = l.lock().unwrap().clone();
+                        let mut out = vec![];
+                        for x in items {
+                            out.push(self.call(&args[0], vec![x], None)?);
+                        }
+                        *l.lock().unwrap() = out;
+                        if nesting_depth(recv, 0) > 40 {
+                            return unjudged("cyclic container");
+                        }
+                        Ok(recv.clone())
+                    }
+                    _ => self.seq_read_method(recv, name, &args),
+                }
+            }
+            V::Tuple(_) => self.seq_read_method(recv, name, &args),
+            V::Map(m) => {
+                if !m.lock().unwrap().meta.is_empty() {
+                    return unjudged("core map functions on an object");
+                }
+                match name {
+                    "insert" => {
+                        if args.is_empty() || args.len() > 2 {
+                            return err("unexpected arguments for insert");
+                        }
+                        if !key_ok(&args[0]) {
+                            return unjudged("map key outside the modelled key kinds");
+                        }
+                        let val = args.get(1).cloned().unwrap_or(V::Null);
+                        let mut d = m.lock().unwrap();
+                        let r = match d.entries.iter_mut().find(|(k, _)| key_equal(k, &args[0])) {
+                            Some(e) => std::mem::replace(&mut e.1, val),
+                            None => {
+                                d.entries.push((args[0].clone(), val));
+                                V::Null
+                            }
+                        };
+                        drop(d);
+                        if nesting_depth(recv, 0) > 40 {
+                            return unjudged("cyclic container");
+                        }
+                        Ok(r)
+                    }
+                    "remove" => {
+                        arity(1)?;
+                        if !key_ok(&args[0]) {
+                            return unjudged("map key outside the modelled key kinds");
+                        }
+                        let mut d = m.lock().unwrap();
+                        // order-preserving removal
+                        match d.entries.iter().position(|(k, _)| key_equal(k, &args[0])) {
+                            Some(p) => Ok(d.entries.remove(p).1),
+                            None => Ok(V::Null),
+                        }
+                    }
+                    "clear" => {
+                        arity(0)?;
+                        m.lock().unwrap().entries.clear();
+                        Ok(recv.clone())
+                    }
+                    "extend" => {
+                        arity(1)?;
+                        let pairs: Vec<(V, V)> = match &args[0] {
+                            V::Map(o) => {
+                                if Arc::ptr_eq(o, m) {
+                                    return unjudged("m.extend m");
+                                }
+                                o.lock().unwrap().entries.clone()
+                            }
+                            other => {
+                                let mut out = vec![];
+                                for it in self.iterate(other)? {
+                                    match it {
+                                        V::Tuple(t) if t.len() == 2 => out.push((t[0].clone(), t[1].clone())),
+                                        _ => return unjudged("map.extend with non-pair elements"),
+                                    }
+                                }
+                                out
+                            }
+                        };
+                        let mut d = m.lock().unwrap();
+                        for (k, v) in pairs {
+                            if !key_ok(&k) {
+                                return unjudged("map key outside the modelled key kinds");
+                            }
+                            match d.entries.iter_mut().find(|(k2, _)| key_equal(k2, &k)) {
+                                Some(e) => e.1 = v,
+                                None => d.entries.push((k, v)),
+                            }
+                        }
+                        drop(d);
+                        if nesting_depth(recv, 0) > 40 {
+                            return unjudged("cyclic container");
+                        }
+                        Ok(recv.clone())
+                    }
+                    "sort" => {
+                        if !args.is_empty() {
+                            return unjudged("map.sort with a key function (judged by the sorting laws)");
+                        }
+                        let mut entries = m.lock().unwrap().entries.clone();
+                        // sort by key, stable
+                        for i in 1..entries.len() {
+                            let mut j = i;
+                            while j > 0 && cmp_for_sort(&entries[j - 1].0, &entries[j].0)? == std::cmp::Ordering::Greater {
+                                entries.swap(j - 1, j);
+                                j -= 1;
+                            }
+                        }
+                        m.lock().unwrap().entries = entries;
+                        Ok(recv.clone())
+                    }
+                    "get" => {
+                        if args.is_empty() || args.len() > 2 {
+                            return err("unexpected arguments for get");
+                        }
+                        if !key_ok(&args[0]) {
+                            return unjudged("map key outside the modelled key kinds");
+                        }
+                        let d = m.lock().unwrap();
+                        Ok(d.entries.iter().find(|(k, _)| key_equal(k, &args[0])).map(|e| e.1.clone()).unwrap_or_else(|| args.get(1).cloned().unwrap_or(V::Null)))
+                    }
+                    "keys" => {
+                        arity(0)?;
+                        Ok(vtuple_iter(m.lock().unwrap().entries.iter().map(|e| e.0.clone()).collect()))
+                    }
+                    "values" => {
+                        arity(0)?;
+                        Ok(vtuple_iter(m.lock().unwrap().entries.iter().map(|e| e.1.clone()).collect()))
+                    }
+                    "get_index" => {
+                        if args.is_empty() || args.len() > 2 {
+                            return err("unexpected arguments for get_index");
+                        }
+                        let i = match &args[0] {
+                            V::Int(n) => *n,
+                            _ => return err("expected a number"),
+                        };
+                        let d = m.lock().unwrap();
+                        if i < 0 {
+                            return unjudged("negative get_index");
+                        }
+                        Ok(d.entries.get(i as usize).map(|(k, v)| vtuple(vec![k.clone(), v.clone()])).unwrap_or_else(|| args.get(1).cloned().unwrap_or(V::Null)))
+                    }
+                    "contains_key" => {
+                        arity(1)?;
+                        if !key_ok(&args[0]) {
+                            return unjudged("map key outside the modelled key kinds");
+                        }
+                        Ok(V::Bool(m.lock().unwrap().entries.iter().any(|(k, _)| key_equal(k, &args[0]))))
+                    }
+                    "is_empty" => {
+                        arity(0)?;
+                        Ok(V::Bool(m.lock().unwrap().entries.is_empty()))
+                    }
+                    "size" => {
+                        arity(0)?;
+                        Ok(V::Int(m.lock().unwrap().entries.len() as i64))
+                    }
+                    "update" => {
+                        if args.len() < 2 || args.len() > 3 {
+                            return err("unexpected arguments for update");
+                        }
+                        if !key_ok(&args[0]) {
+                            return unjudged("map key outside the modelled key kinds");
+                        }
+                        let (default, f) = if args.len() == 3 { (args[1].clone(), args[2].clone()) } else { (V::Null, args[1].clone()) };
+                        let cur = m.lock().unwrap().entries.iter().find(|(k, _)| key_equal(k, &args[0])).map(|e| e.1.clone()).unwrap_or(default);
+                        let new = self.call(&f, vec![cur], None)?;
+                        let mut d = m.lock().unwrap();
+                        match d.entries.iter_mut().find(|(k, _)| key_equal(k, &args[0])) {
+                            Some(e) => e.1 = new.clone(),
+                            None => d.entries.push((args[0].clone(), new.clone())),
+                        }
+                        drop(d);
+                        if nesting_depth(recv, 0) > 40 {
+                            return unjudged("cyclic container");
+                        }
+                        Ok(new)
+                    }
+                    "to_tuple" => {
+                        arity(0)?;
+                        Ok(vtuple(self.iterate(recv)?))
+                    }
+                    _ => unjudged("unmodelled map method"),
+                }
+            }
+            _ => unjudged("method on an unmodelled receiver"),
+        }
+    }
+
+    fn seq_read_method(&mut self, recv: &V, name: &str, args: &[V]) -> R {
+        let items = self.iterate(recv)?;
+        match (name, args.len()) {
+            ("first", 0) => Ok(items.first().cloned().unwrap_or(V::Null)),
+            ("last", 0) => Ok(items.last().cloned().unwrap_or(V::Null)),
+            ("get", 1 | 2) => match &args[0] {
+                V::Int(n) if *n >= 0 => Ok(items.get(*n as usize).cloned().unwrap_or_else(|| args.get(1).cloned().unwrap_or(V::Null))),
+                V::Int(_) => unjudged("negative get index"),
+                _ => err("expected a number"),
+            },
+            ("contains", 1) => {
+                for x in &items {
+                    if values_equal(x, &args[0])? {
+                        return Ok(V::Bool(true));
+                    }
+                }
+                Ok(V::Bool(false))
+            }
+            ("is_empty", 0) => Ok(V::Bool(items.is_empty())),
+            ("size", 0) => Ok(V::Int(items.len() as i64)),
+            ("to_tuple", 0) => Ok(vtuple(items)),
+            ("to_list", 0) => Ok(vlist(items)),
+            _ => err(format!("unexpected arguments for {name}")),
+        }
+    }
+}
+
+/// keys() / values() return iterators: modelled as a lazily consumed adaptor over a snapshot tuple
+fn vtuple_iter(items: Vec<V>) -> V {
+    V::Adapt(Arc::new(("iter".to_string(), vtuple(items), V::Null)))
+}
+
+/// nesting depth of a value; cyclic values report 65. Shared sub-structures are visited once.
+pub fn nesting_depth(v: &V, d: usize) -> usize {
+    fn ptr_of(v: &V) -> Option<usize> {
+        match v {
+            V::List(l) => Some(Arc::as_ptr(l) as usize),
+            V::Map(m) => Some(Arc::as_ptr(m) as usize),
+            V::Tuple(t) => Some(Arc::as_ptr(t) as *const u8 as usize),
+            _ => None,
+        }
+    }
+    fn go(v: &V, d: usize, path: &mut Vec<usize>, done: &mut HashMap<usize, usize>) -> usize {
+        if d > 64 {
+            return 65;
+        }
+        let Some(p) = ptr_of(v) else { return d };
+        if path.contains(&p) {
+            return 65; // cycle
+        }
+        if let Some(h) = done.get(&p) {
+            return (d + h).min(65);
+        }
+        path.push(p);
+        let kids: Vec<V> = match v {
+            V::List(l) => match l.try_lock() {
+                Ok(g) => g.clone(),
+                Err(_) => {
+                    path.pop();
+                    return 65;
+                }
+            },
+            V::Tuple(t) => (**t).clone(),
+            V::Map(m) => match m.try_lock() {
+                Ok(g) => g.entries.iter().map(|e| e.1.clone()).collect(),
+                Err(_) => {
+                    path.pop();
+                    return 65;
+                }
+            },
+            _ => vec![],
+        };
+        let mut deepest = d;
+        for k in &kids {
+            deepest = deepest.max(go(k, d + 1, path, done));
+            if deepest >= 65 {
+                break;
+            }
+        }
+        path.pop();
+        done.insert(p, deepest.saturating_sub(d));
+        deepest
+    }
+    go(v, d, &mut vec![], &mut HashMap::new())
 }
 
 /// statements that are pure operators at the top (skipped by the compiler when unused)
